@@ -93,7 +93,8 @@ TEXTS = {
                      "already-due timers; concrete multi-level/multi-revolution instances. The implementation's wheel is compared bucket by bucket with the model after every operation and every Expiration removal is predicted; the "
                      "unswept-after-one-tick oracle runs on the implementation at every quiescent point.",
                design_ref="DESIGN.md section 5, C13", note=MAINT_NOTE + " The stale-clock interleaving (a write samples the clock, maintenance runs at a later clock value, the write proceeds) is produced deterministically through the Clock interface (STALE writes of the maint engine).", technique=MAINT_TECH),
-    "C19": dict(text="Coq theorems on LoadCacheFrom's per-entry program: an unexpired entry is loaded with the saved key, value and expiration deadline for any number of warm-up reads and any read calculator; nothing with deadline <= now is loaded. "
+    "C19": dict(text="Coq theorems on LoadCacheFrom's per-entry program: an unexpired entry is loaded with the saved key, value and expiration deadline for any number of warm-up reads and any read calculator; nothing with deadline <= now is loaded. Over the whole file (PersistAll.v: the loops of SaveCacheTo / LoadCacheFrom with their size cut-off, for every list of saved entries with distinct keys): every entry the loop takes is present "
+                     "afterwards with its key, value and deadline whatever was loaded before and after it; keys not in the file are untouched; when the contents fit the maximum nothing is cut off by either loop; pinned entries are never cut off. "
                      "Harness: save -> clock offset -> load into a fresh cache of the same configuration (same/larger/smaller maximum), compared entry by entry.",
                design_ref="DESIGN.md section 5, C19", note=SEQ_NOTE + " gob is modelled as the identity; Hottest's order is the policy's.", technique=SEQ_TECH),
     "C01": dict(text="Coq theorem: the concrete sequential model of cache_impl.go (expired nodes physically present, all 20 operations incl. loads, "
